@@ -56,6 +56,59 @@ def table(db, fid):
     return f, best, t
 
 
+def rule_jump_adjacent(db, rep):
+    """R-JUMP-ADJ: the signature of a jump intrinsic is accepted only if the time argument is DIRECTLY next to the offset argument
+    (lowering writes both through one JumpArgOrder slot pair; shared with C04: otherwise the lowerer's slot assertion panics)"""
+    from rules import symeval as SY
+    SY.set_aliases([])
+    rep.rule("R-JUMP-ADJ", "find_and_remove_jump returns LocTime only if time_index == offset_index + 1 and TimeLoc only if time_index + 1 == offset_index "
+                           "(linear normal form of the guarding condition); any other placement is a bad-ABI error")
+    fid = "llir::intrinsic::IntrinsicAbiHelper::<'_>::find_and_remove_jump"
+    f = db.fn(fid)
+    rep.fn(f)
+    paths = [p_ for p_ in SY.fn_paths(db, fid) if p_[2] is None]
+    terms = SY.fn_paths.last_atom_terms
+    seen = {}
+    for conds, events, fl, st in paths:
+        ret = [e[2] for e in events if e[0] == "set" and e[1] == "<ret>"]
+        if not ret:
+            continue
+        txt = SY.render(ret[0])
+        m = re.search(r"JumpArgOrder::(LocTime|TimeLoc|Loc)\b", txt)
+        if not m or not txt.startswith("Result::Ok"):
+            continue
+        order = m.group(1)
+        t_idx, o_idx = st.env.get("time_index"), st.env.get("offset_index")
+        rel = None
+        for k, v, _ in conds:
+            tm = terms.get(k)
+            if v is True and tm is not None and tm[0] == "bin" and tm[1] == "==":
+                l, r = SY.linear_form(tm[2]), SY.linear_form(tm[3])
+                d = dict(l)
+                for kk, vv in r.items():
+                    d[kk] = d.get(kk, 0) - vv
+                d = dict((kk, vv) for kk, vv in d.items() if vv != 0)
+                rel = d
+        seen.setdefault(order, []).append((rel, [(k, v) for k, v, _ in conds]))
+    def is_rel(rel, sign):
+        # time - offset == sign   (up to multiplying by -1), atoms are whatever the two index terms render to
+        if not rel or 1 not in rel or len(rel) != 3:
+            return False
+        names = [k for k in rel if k != 1]
+        tn = [n for n in names if "JumpTime" in n]
+        on = [n for n in names if "JumpOffset" in n]
+        if len(tn) != 1 or len(on) != 1:
+            return False
+        a, b, c = rel[tn[0]], rel[on[0]], rel[1]
+        return (a, b, c) == (1, -1, -sign) or (a, b, c) == (-1, 1, sign)
+    ok_lt = bool(seen.get("LocTime")) and all(is_rel(r_, 1) for r_, _ in seen.get("LocTime", []))
+    ok_tl = bool(seen.get("TimeLoc")) and all(is_rel(r_, -1) for r_, _ in seen.get("TimeLoc", []))
+    rep.check(ok_lt, "R-JUMP-ADJ", "find_and_remove_jump|LocTime iff time == offset + 1", f.loc, "offset then time, adjacent",
+              "LocTime is returned under %s: a signature with something between 'o' and 't' is accepted and the lowerer writes the time into another argument's slot" % [c for _, c in seen.get("LocTime", [])][:1])
+    rep.check(ok_tl, "R-JUMP-ADJ", "find_and_remove_jump|TimeLoc iff time + 1 == offset", f.loc, "time then offset, adjacent",
+              "TimeLoc is returned under %s" % [c for _, c in seen.get("TimeLoc", [])][:1])
+
+
 def run(db, tier):
     rep = Report("C12", tier, EXPLANATION, RULE)
     rep.rule("R-CODEC-ARMS", "encoder and decoder list the same ArgEncoding patterns with inverse primitives")
@@ -265,6 +318,31 @@ def run(db, tier):
     rep.extra["casts_in_encode_args_closures_and_helpers"] = n_aux
     rep.floor("functions in the encode_args closure/helper scope", len(scope), 5)
 
+    rule_jump_adjacent(db, rep)
+    # ---- R-VALIDATE: nothing may follow a string that is read to the end of the blob
+    from rules import symeval as SY
+    from facts import hir_walk as _hw
+    SY.set_aliases([])
+    fv = db.fn("llir::abi::validate")
+    rep.fn(fv)
+    vpaths = SY.fn_paths(db, fv.id, error_paths=True)
+    vterms = SY.fn_paths.last_atom_terms
+    OK_ITER = ("skip(rev(iter(encodings)), 1)", "take(iter(encodings), (len(encodings) - 1))", "rev(skip(rev(iter(encodings)), 1))",
+               "iter(index(encodings, range::RangeTo{end: (len(encodings) - 1)}))")
+    hits = []
+    for key, tm in vterms.items():
+        if tm[0] != "app" or not tm[2]:
+            continue
+        clos = [a for a in tm[2] if isinstance(a, tuple) and a and a[0] == "closure"]
+        if not clos or not any("ToBlobEnd" in str(x.get("p", "")) for x in _hw(clos[0][2]["b"])) and "ToBlobEnd" not in str(clos[0][2]):
+            continue
+        hits.append((SY.short(tm[1]).split("::")[-1], SY.render(tm[2][0]), key))
+    good = [h for h in hits if h[0] == "any" and h[1] in OK_ITER]
+    err_on_it = any(fl == "error" and any(k == g[2] and v is True for k, v, _ in conds) for g in good for conds, ev_, fl, st in vpaths)
+    rep.check(bool(good) and err_on_it, "R-VALIDATE", "validate|read-to-end string only last", fv.loc,
+              "every encoding except the last is tested (%s) and a hit is an error" % (good[0][1] if good else ""),
+              "validate does not reject a `bs=` (read to end of blob) string in EVERY position but the last (tests found: %s): with two such strings the decoder gives "
+              "the first one all remaining bytes and the second decodes as empty" % [(h[0], h[1]) for h in hits])
     from props import c15
     rep.absorb(c15.run(db, tier), rules=("R-LAYER-ORDER", "R-FIT", "R-NOREPLACE"), why="string arguments are part of the argument codec")
 
